@@ -121,6 +121,7 @@ def run(P: Program, R: Report, tier: str) -> None:
         "each previous label of a stroke becomes exactly one delete-node or shrink-node sub-edit and the new label exactly one grow-node or add-node",
         "a node is deleted by a stroke only when no pixel of it remains; pixels given to a user action reach the primitive",
     ]
+    R.decides += ['one history step per top-level action and a pure inverse() (shared R02.6 / R02.8); memo discipline']
     R.not_decided += ["pixel geometry, that pixel tuples lie in the node's frame, bit-exact restoration of the array"]
     E = Effects(P)
     A = ActionAnalysis(P)
